@@ -312,10 +312,15 @@ def prepare(o, facts=None):
     return p
 
 
+SEED = 0      # the retry of open obligations re-runs the stages with other solver seeds (an unsat answer is a proof under any seed)
+
+
 def _check(hyps, goal, rlimit, wall_ms):
     s = z3.Solver()
     s.set("rlimit", rlimit)
     s.set("timeout", int(wall_ms))
+    if SEED:
+        s.set("random_seed", SEED)
     for h in hyps:
         s.add(h)
     s.add(z3.Not(goal))
@@ -325,7 +330,7 @@ def _check(hyps, goal, rlimit, wall_ms):
 
 def _solve_prepared(p, rlimit, wall_ms, fallbacks):
     t0 = time.time()
-    short = min(wall_ms, 15000)
+    short = min(wall_ms, max(15000, wall_ms // 4))
     stages = []
     if len(p.qf_idx) < len(p.hyps):
         if p.nl:
@@ -418,8 +423,10 @@ def pool_map(fn, n_items, hard_s):
     return out
 
 
-def solve_all(obs, facts=None, fallbacks=True, rlimit=None, wall_ms=None):
+def solve_all(obs, facts=None, fallbacks=True, rlimit=None, wall_ms=None, seed=0):
     """obs: list of obligations (hyps = facts[:nfacts] + pc + extra_hyps).  returns list of dicts in order."""
+    global SEED
+    SEED = seed            # read by the forked children
     rlimit = rlimit or RLIMIT
     wall_ms = wall_ms or WALL_MS
     prepared = {}
